@@ -3,10 +3,61 @@ from . import sym, aff, tables
 from .facts import cond_atom, E
 
 
+class Inliner:
+    """Splices the events of small unit-local callees into caller paths (helper functions
+    introduced by refactoring must not change what a path rule sees).  A callee is inlinable
+    when it is defined in the unit, is not the caller itself, and has at most `max_paths`
+    feasible paths; the product with the caller's paths is enumerated by all_paths()."""
+    def __init__(self, unit, names=None, max_paths=6, max_depth=2, only_static=False):
+        self.unit = unit; self.names = names; self.max_paths = max_paths; self.max_depth = max_depth
+        self._paths = {}
+        self.sites = []        # filled during a dry run: number of paths of each inlinable call met
+        self.choice = None
+        self.pos = 0
+
+    def callee_paths(self, name):
+        if name not in self._paths:
+            fs = self.unit.funcs()
+            g = fs.get(name)
+            ps = None
+            if g is not None and (self.names is None or name in self.names):
+                try:
+                    cand = g.paths(max_paths=200)
+                    if 0 < len(cand) <= self.max_paths:
+                        ps = (g, cand)
+                except AnalysisBrokenT:
+                    ps = None
+            self._paths[name] = ps
+        return self._paths[name]
+
+    def __call__(self, ev, env, depth):
+        if ev.fn is None or depth >= self.max_depth:
+            return None
+        cp = self.callee_paths(ev.fn)
+        if cp is None:
+            return None
+        g, cand = cp
+        if self.choice is None:
+            self.sites.append(len(cand))
+            k = 0
+        else:
+            k = self.choice[self.pos] if self.pos < len(self.choice) else 0
+            self.pos += 1
+        env0 = {}
+        for i, p in enumerate(g.params):
+            if i < len(ev.args):
+                env0[p['n']] = ev.args[i].subst(env)
+        steps = sym.symexec(g, cand[k], env0=env0, inliner=self, depth=depth + 1)
+        return [(e2, v2) for e2, v2 in steps if e2.kind != 'ret']
+
+
+from .facts import AnalysisBroken as AnalysisBrokenT
+
+
 class PathInfo:
-    def __init__(self, func, path):
+    def __init__(self, func, path, inliner=None):
         self.func = func; self.path = path
-        self.steps = sym.symexec(func, path)
+        self.steps = sym.symexec(func, path, inliner=inliner)
         self.id = '/'.join('%d%s' % (b, '' if l is None else ('T' if l is True else 'F' if l is False else str(l))) for b, l in path)
 
     def events(self, kind=None):
@@ -89,14 +140,41 @@ class PathInfo:
         return True
 
 
-def all_paths(func, feasible_only=True, **kw):
+def all_paths(func, feasible_only=True, inline=None, inline_names=None, **kw):
+    """inline: a facts.Unit — calls to its small functions are expanded into the paths."""
     out = []
+    import itertools
     for p in func.paths(**kw):
-        pi = PathInfo(func, p)
-        if feasible_only and not pi.feasible():
-            continue
-        out.append(pi)
+        if inline is None:
+            pis = [PathInfo(func, p)]
+        else:
+            dry = Inliner(inline, inline_names)
+            dry.names = None if inline_names is None else set(inline_names)
+            if dry.names is not None:
+                dry.names.discard(func.name)
+            first = PathInfo(func, p, inliner=_guard(dry, func))
+            combos = list(itertools.product(*[range(n) for n in dry.sites])) if dry.sites else [()]
+            if len(combos) > 64:
+                combos = combos[:64]
+            pis = []
+            for ch in combos:
+                if not any(ch):
+                    pis.append(first); continue
+                inl = Inliner(inline, dry.names); inl._paths = dry._paths; inl.choice = ch
+                pis.append(PathInfo(func, p, inliner=_guard(inl, func)))
+        for pi in pis:
+            if feasible_only and not pi.feasible():
+                continue
+            out.append(pi)
     return out
+
+
+def _guard(inl, func):
+    def f(ev, env, depth):
+        if ev.fn == func.name:
+            return None
+        return inl(ev, env, depth)
+    return f
 
 
 def rel(atom):
